@@ -150,8 +150,12 @@ func oracleSizes(r *Rng, keys []keyPair, tier string) {
 			at := b2i(total == 65535)
 			for _, compress := range []bool{false, true} {
 				sized(0, compress, total, kp, 1+b2i(!compress))
-				sized(1, compress, total, kp, b2i(compress && total >= 65535)+b2i(compress && ki%2 == 0)*at)
-				sized(3, compress, total, kp, b2i(compress == (ki%2 == 0))*at)
+				if compress || ki%2 == 0 {
+					sized(1, compress, total, kp, b2i(compress && total >= 65535)+b2i(compress && ki%2 == 0)*at)
+				}
+				if compress == (ki%3 != 0) {
+					sized(3, compress, total, kp, at)
+				}
 			}
 			sized(2, true, total, kp, b2i(total >= 65535)+b2i(ki%2 == 1)*at) // fits only when compressed
 		}
